@@ -252,7 +252,11 @@ WalkStmt(s, st, sigma, frozen, af, md) ==
         LET v == EvalE(s.e, st, sigma, frozen) IN
         IF v.k = "unres" THEN NoteUnresAt(st, v, frozen, s.sid)
         ELSE IF v.k # "num" \/ v.n < 0 THEN Unspec(st)
-        ELSE IF HasSeg(st) THEN [st EXCEPT !.segs[st.cur].pc = v.n] ELSE st
+        (* `*' is the address the code runs at: in a relocated segment (toff # 0) the assignment moves the place where the bytes *)
+        (* are stored by the same distance (the code took the value for the storage position: a label behind `* = $8010' in a    *)
+        (* segment stored at $4000 and running at $8000 became $C010; repaired)                                                   *)
+        ELSE IF HasSeg(st) THEN (IF v.n - st.segs[st.cur].toff < 0 \/ v.n - st.segs[st.cur].toff > 65535 THEN Unspec(st)
+                                 ELSE [st EXCEPT !.segs[st.cur].pc = v.n - st.segs[st.cur].toff]) ELSE st
     [] s.k = "align" ->      \* the value is evaluated (and an unknown name in it noted) also where no segment is active
         LET v == EvalE(s.e, st, sigma, frozen) IN
           IF v.k = "unres" THEN NoteUnresAt(st, v, frozen, s.sid)
